@@ -5,7 +5,7 @@ pd=/tmp/wt/$id/patch.diff; [ -f $pd ] || pd=/verif/seeded/$id/patch.diff
 cd /repo || exit 2
 if ! git diff --quiet; then echo "repo dirty"; exit 2; fi
 git apply $pd || { echo "patch does not apply"; exit 2; }
-mkdir -p /tmp/trymut.out; cd /verif && VERIF_OUT=/tmp/trymut.out ./verif check $prop "$@" 2>&1 | grep -v "^WARNING conda" | cut -c1-330 | tail -8
+mkdir -p /tmp/trymut.out; cd /verif && VERIF_OUT=/tmp/trymut.out ./verif check $prop "$@" 2>&1 | grep -E "VIOLATION|KNOWN-FINDING|^  rule=|^verif: " | cut -c1-330 | tail -12
 rc=${PIPESTATUS[0]}
 git -C /repo checkout -- .
 echo "rc=$rc"
